@@ -44,6 +44,8 @@ def run(ctx):
         nrand = 20000 if thorough else 1500
         vecs += [corrupt(rng, rng.choice(well)) for _ in range(nrand)]
         scenarios = [cmdlib.wrap_vector(v) for v in vecs]
+        # the same with a tracer installed (span bookkeeping reads the request too): every short vector, a sample of the rest
+        scenarios += [cmdlib.wrap_vector(v, tracer=True) for i, v in enumerate(vecs) if len(v["args"]) <= 2 or i % 9 == 0]
         if not any(v["st"] == "ill" for v in vecs):
             raise vlib.Inconclusive("generator produced no ill-formed vector (vacuous)")
     ctx.stage("generate")
